@@ -33,6 +33,7 @@ type SeqResult struct {
 	Closed      bool // true if the search ended because no new state appeared
 	PerLevel    []int
 	Sample      [][]uint8 // a few histories, one per level
+	Reps        [][]uint8 // the shortest history of every state found (at most 200 000)
 }
 
 func (s *SeqSearch) BFS(c *Ctx) SeqResult {
@@ -46,6 +47,7 @@ func (s *SeqSearch) BFS(c *Ctx) SeqResult {
 	}
 	seen[sha1.Sum([]byte(rootKey))] = struct{}{}
 	frontier := [][]uint8{{}}
+	res.Reps = append(res.Reps, []uint8{})
 	res.States = 1
 	res.PerLevel = append(res.PerLevel, 1)
 	for depth := 1; len(frontier) > 0; depth++ {
@@ -108,6 +110,9 @@ func (s *SeqSearch) BFS(c *Ctx) SeqResult {
 			}
 			seen[r.key] = struct{}{}
 			next = append(next, hist)
+			if len(res.Reps) < 200000 {
+				res.Reps = append(res.Reps, hist)
+			}
 		}
 		res.States = len(seen)
 		res.Depth = depth
